@@ -1,8 +1,8 @@
 -- REGENERATED from /repo by `vh extract` on every run. Do not edit.
 namespace Sqlc.Gen
 /-- literal prefixes that end the `up` part of a migration (internal/migrations/migrations.go) -/
-def rollbackMarkers : List String := ["-- +goose down", "-- +migrate Down", "---- create above / drop below ----", "-- migrate:down"]
-def rollbackMarkersB : List (List UInt8) := [[45, 45, 32, 43, 103, 111, 111, 115, 101, 32, 100, 111, 119, 110], [45, 45, 32, 43, 109, 105, 103, 114, 97, 116, 101, 32, 68, 111, 119, 110], [45, 45, 45, 45, 32, 99, 114, 101, 97, 116, 101, 32, 97, 98, 111, 118, 101, 32, 47, 32, 100, 114, 111, 112, 32, 98, 101, 108, 111, 119, 32, 45, 45, 45, 45], [45, 45, 32, 109, 105, 103, 114, 97, 116, 101, 58, 100, 111, 119, 110]]
+def rollbackMarkers : List String := ["-- +goose Down", "-- +migrate Down", "---- create above / drop below ----", "-- migrate:down"]
+def rollbackMarkersB : List (List UInt8) := [[45, 45, 32, 43, 103, 111, 111, 115, 101, 32, 68, 111, 119, 110], [45, 45, 32, 43, 109, 105, 103, 114, 97, 116, 101, 32, 68, 111, 119, 110], [45, 45, 45, 45, 32, 99, 114, 101, 97, 116, 101, 32, 97, 98, 111, 118, 101, 32, 47, 32, 100, 114, 111, 112, 32, 98, 101, 108, 111, 119, 32, 45, 45, 45, 45], [45, 45, 32, 109, 105, 103, 114, 97, 116, 101, 58, 100, 111, 119, 110]]
 def downSuffixB : List UInt8 := [46, 100, 111, 119, 110, 46, 115, 113, 108]
 def globSuffixB : List UInt8 := [46, 115, 113, 108]
 def globHiddenPrefixB : List UInt8 := [46]
